@@ -16,6 +16,8 @@ const LEXEMES: &[&str] = &[
     // a keyword minus its last letter, followed by a character whose first byte is that letter with bit 7
     // (or bits 7 and 5) set: case folding by bit masks must not see a keyword there
     "STO\u{410}", "STO😊", "I\u{192}", "I日", "T\u{3c0}", "GOSU€", "GOSU¡", "THE\u{3b1}", "EN\u{101}", "ELS\u{161}", "RE\u{34d}", "RE한", "DAT\u{1000}", "PRIN\u{500}",
+    // sizes the short alphabets never reach: long names, long strings, larger numerals
+    "ZEBRA9", "QUUX$", "WXYZ12345", "\"ABCDEFGHIJKLMNOPQRSTUVWXYZ0123456789\"", "12345", "65535", "1000000", ".001", "123.456", "0000123",
     "\"-1\"", "\"1E3\"", "\"NAN\"", "\"inf\"", "\"+5\"", "-1", "1E3", "nan", "SC", "E", "x", "Y1", "A$", "TOTAL", "0", "1", "5", "25", ".", ".5", "\"", "\"hi\"", "<", ">", "=", "<=", "<>",
     ":", ",", ";", "$", " ", "  ", "\t", "+", "-", "*", "/", "^", "(", ")", "?", "é", "日", "%", "😊",
 ];
@@ -45,7 +47,19 @@ pub fn random_line(rng: &mut StdRng) -> String {
     let n = rng.gen_range(1..=9);
     let mut s = String::new();
     let long = if rng.gen_bool(0.04) { Some(rng.gen_range(0..n)) } else { None };
+    // numerals of every length up to 24 digits, with the dot anywhere: the 15 / 17 / 19-digit
+    // boundaries of double precision and of 64-bit accumulators lie in there
+    let randnum = if rng.gen_bool(0.15) { Some(rng.gen_range(0..n)) } else { None };
     for i in 0..n {
+        if randnum == Some(i) {
+            let len = rng.gen_range(1..=24);
+            let dot = if rng.gen_bool(0.7) { Some(rng.gen_range(0..=len)) } else { None };
+            for k in 0..len {
+                if dot == Some(k) { s.push('.'); }
+                s.push((b'0' + rng.gen_range(0..10u8)) as char);
+            }
+            continue;
+        }
         if long == Some(i) {
             let xs = long_numerals();
             s.push_str(&xs[rng.gen_range(0..xs.len())]);
